@@ -497,3 +497,29 @@ func staleIndexDeletes(body *ast.BlockStmt) []ast.Node {
 	})
 	return out
 }
+
+func init() {
+	old := All["C06"].Run
+	All["C06"].Run = func(c *an.Ctx) {
+		old(c)
+		c06unsignedRejected(c)
+	}
+	All["C06"].Rules += " R9"
+	addLevel("C06", "the unsigned spelling (`u` suffix) of a field value is rejected: the store has no unsigned column type, a value of 2^63 or more cannot be kept.")
+}
+
+// c06unsignedRejected — C06.R9.  Field values travel as float64 and are stored in int64 / float64
+// columns.  An unsigned literal (`18446744073709551615u`) has no column type that can hold it:
+// it must be rejected, not parsed and squeezed into an integer column.
+func c06unsignedRejected(c *an.Ctx) {
+	const P = "lib/util/lifted/vm/protoparser/influx"
+	r := c.Rule("C06.R9", "K-GUARD", P+":parseFieldNumValue — a value spelled with the unsigned suffix `u` is rejected with an error")
+	f := fn(r, P+":parseFieldNumValue")
+	if f == nil {
+		return
+	}
+	r.AddSites(1)
+	f.BranchReturns(r, an.AtomLike(`^('u'|117)==p0\[\(len\(p0\)-1\)\]$|^p0\[\(len\(p0\)-1\)\]==('u'|117)$`, true), an.MReturn("of an error", func(g *an.Fn, rs *ast.ReturnStmt) bool {
+		return len(rs.Results) == 3 && !an.IsNilIdent(g.Info, rs.Results[2])
+	}), "`u` suffix ⇒ error")
+}
